@@ -12,7 +12,7 @@ from .seqlib import exc_name
 PROPERTY = "C14"
 DRIVER = "TraitsVerif/Driver/Persist.lean"
 PROPS_MODULES = ["TraitsVerif.Props.C14"]
-TRANSLATORS = ["ctables", "copychains"]
+TRANSLATORS = ["ctables", "copychains", "pypersist"]
 RULE = ("P: a HasTraits class is drawn from a menu of 25 trait declarations (Int/Str/CInt/Any, List/Dict/Set nested "
         "up to depth 3, minlen/maxlen, Instance, ReadOnly, Event, validated Property; transient and copy=ref|shallow|"
         "deep|None metadata), a history of 0-8 assignments, nested container mutations (by path) and aliasing "
